@@ -2644,6 +2644,9 @@ def groupby_reduce(
         if finalize_kwargs is None or "q" not in finalize_kwargs:
             raise ValueError("Please pass `q` for quantile calculations.")
         else:
+            qs = np.asarray(finalize_kwargs["q"])
+            if not ((qs >= 0) & (qs <= 1)).all():
+                raise ValueError("Quantiles must be in the range [0, 1]")
             nq = len(_atleast_1d(finalize_kwargs["q"]))
             if nq > 1 and engine == "numpy":
                 raise ValueError(
